@@ -4,7 +4,7 @@
 Lean side (`CpProps/C19.lean`): tick-counting counterparts of the binary loops (`CpModel/Cost.lean`), linear bounds
 for the item loop with ANY item parser, for the record / handshake framing and for the whole ClientHello, "a declared
 count never drives more iterations than bytes present" for every count-driven primitive, the variant walks, and the
-class graph of the TLS model (finite, acyclic, depth <= 4).
+class graph of the TLS model (finite, acyclic, call chains of at most 7 classes).
 
 Implementation side (this module): the REAL parse is run under `sys.monitoring` (fallback `sys.settrace`) and its
 interpreter LINE EVENTS inside `cryptoparser/` are counted, together with the deepest nesting of cryptoparser
@@ -13,8 +13,10 @@ frames.  Line events are deterministic, so every verdict is taken on them and ne
   superlinear:<Class>:<shape>       sizes s, 2s, 4s, 8s of a scalable shape; the slope d(events)/d(bytes) of the last
                                     doubling exceeds 1.5 x the slope of the first
   declared-count-work:<Class>:<f>   a maximal declared length/count followed by a few bytes costs more than a fixed
-                                    budget of events, or allocates memory proportional to the declared value
-  depth:<Class>[:<shape>]           the nesting of cryptoparser frames grows with the size
+                                    budget of events (DECLARED_BUDGET), more than DECLARED_DIFF events above the SAME
+                                    input declaring a value just beyond the data, or allocates more than DECLARED_ALLOC
+  depth:<Class>                     the nesting of cryptoparser frames grows with the size, or RecursionError escapes
+                                    (filed under the class whose parser recurses)
   hang:<Class>                      a parse exceeds the time limit (signal.alarm)
   budget:<Class>                    a corpus / mutated input costs more than EV_PER_BYTE * len + EV_CONST events
   entry-points:<Class>              parse_immutable / parse_exact_size / parse_mutable differ by more than a constant
@@ -25,8 +27,10 @@ ticks <= the proven linear bound.
 NOT claimed (recorded as unmodelled): C-level work inside one interpreter step — slice copies such as
 `unparsed_bytes[parsed_length:]` or `buf[a:b].endswith(sep)` (quadratic in BYTES for some shapes, Lean:
 `C18.search_bytes_quadratic`), `list.insert(0, x)`, `str +=`, third-party code (dateutil, json, asn1crypto).  Wall
-time is measured at s..8s and reported in the notes where it is clearly superlinear while the events are linear; it
-becomes a finding (`time-worse-than-quadratic:`) only when it grows worse than quadratically."""
+time (untraced) is measured at s..8s, continued by doubling, and reported in the notes where it is clearly superlinear
+while the events are linear; it becomes a finding (`time-worse-than-quadratic:`) only when it grows worse than
+quadratically on two measurements.  A detector self-test (synthetic quadratic / recursive / count-driven parsers compiled
+under a cryptoparser/ file name) runs first; its failure is an infrastructure error, not a verdict."""
 from __future__ import print_function
 
 import signal
@@ -42,7 +46,7 @@ RULE = ('line events inside cryptoparser/ of the real parse (parse_immutable; th
         'smallest size) for every scalable shape in SHAPES (HTTP header block: many parsed/unparsed headers, one huge '
         'value, no CRLF, no colon, only CRLFs; every FieldValueMultiple header and every TXT policy record with n '
         'components, n repeated separators, n spaces, one huge component, no separator; CSP with n directives / n '
-        'sources; ClientHello with n cipher suites (known, GREASE), n extensions (parsed, unparsed), n groups, n '
+        'sources; NEL with nested / long / many-keyed JSON; ClientHello with n cipher suites (known, GREASE), n extensions (parsed, unparsed), n groups, n '
         'signature algorithms, n ALPN names, n key shares, n SNI bytes, one huge extension; ServerHello with n '
         'extensions; Certificate with n certificates and with one huge certificate; CertificateRequest with n names; '
         'TLS/SSL records; SSH KEXINIT with n names and with one huge name, SSH banner without line end and with a huge '
@@ -62,9 +66,10 @@ ASSUMPTIONS = [
 ]
 TRUSTED_EXTRA = ['sys.monitoring / sys.settrace line events of CPython; tracemalloc peak as the allocation measure']
 
-EV_TARGET = 60000           # events of the largest run of a shape (about 0.08 s under monitoring)
+EV_TARGET = 30000           # events of the largest run of a shape in the quick tier (about 0.04 s under monitoring;
+                            # thorough: x4)
 SLOPE_RATIO = 1.5
-MIN_BYTES = 192             # floor on the smallest size of a series
+MIN_BYTES = 64              # floor on the smallest size of a series
 DECLARED_BUDGET = 10000     # events allowed for a maximal declared value followed by a few bytes (the most expensive
                             # constant is the walk over ~40 host-key classes of SshHostPublicKeyVariant: ~8400)
 DECLARED_DIFF = 100         # ... and by how much it may exceed the same input declaring a value just beyond the data
@@ -74,7 +79,7 @@ TIME_LIMIT = 20             # seconds, per parse
 TIME_FLOOR = 0.004          # untraced seconds below which a series is not examined for time growth
 TIME_SUSPECT = 1.25         # time ratio / byte ratio of the last doubling that triggers the extended timing
 TIME_SUPER = 1.5            # ... that is reported as 'clearly superlinear' after the extension (quadratic -> 2)
-TIME_CHEAP = 0.03           # every series whose largest run is faster than this is timed at 16s and 32s as well
+TIME_CHEAP = 0.02           # the untraced timing of a series is continued by doubling until a parse takes this long
 TIME_STOP = 0.25            # stop extending once a single parse takes this long
 ENTRY_SLACK = 40            # events by which the three entry points may differ
 TICK_ALPHA, TICK_BETA = 40, 400        # events <= ALPHA * ticks + BETA on the modelled classes
@@ -317,6 +322,19 @@ def rrsig(sig, labels=(b'example', b'com')):
             dns_name(labels) + sig)
 
 
+def der(tag, body):
+    n = len(body)
+    if n < 0x80:
+        return bytes([tag, n]) + body
+    ln = n.to_bytes((n.bit_length() + 7) // 8, 'big')
+    return bytes([tag, 0x80 | len(ln)]) + ln + body
+
+
+def ldap_response(controls=b'', referrals=b''):
+    op = der(0x0a, b'\x00') + der(0x04, b'') + der(0x04, b'') + (der(0xa3, referrals) if referrals else b'')
+    return der(0x30, der(0x02, b'\x01') + der(0x78, op) + (der(0xa0, controls) if controls else b''))
+
+
 def cls_of(path):
     from harness import corpus
     return corpus.resolve(path)
@@ -418,6 +436,14 @@ def _shapes():
               lambda n: b'{"report_to":"' + b'a' * n + b'","max_age":1}', None))
     s.append((HDR + 'HttpHeaderFieldValueNetworkErrorLogging', 'many-json-keys',
               lambda n: b'{"report_to":"a","max_age":1' + b''.join(b',"k%d":1' % i for i in range(n)) + b'}', None))
+    nel = HDR + 'HttpHeaderFieldValueNetworkErrorLogging'
+    s += [
+        (nel, 'nested-json-arrays', lambda n: b'{"report_to":' + b'[' * n + b']' * n + b',"max_age":1}', 6400),
+        (nel, 'nested-json-objects', lambda n: b'{"a":' * n + b'1' + b'}' * n, 6400),
+        (nel, 'unclosed-json-arrays', lambda n: b'[' * n, 6400),
+        (hf, 'nel-nested-json-arrays', lambda n: b'NEL: ' + b'[' * (8 * n) + b']' * (8 * n) + b'\r\n\r\n', 800,
+         {'blame': 'HttpHeaderFieldValueNetworkErrorLogging', 'scale': 4}),
+    ]
     # --- TXT: SPF
     spf = TXT + 'DnsRecordTxtValueSpf'
     s += [
@@ -596,6 +622,12 @@ def _shapes():
          lambda n: bytes.fromhex('300c02010178070a010004000400') + bytes(n), None),
         ('cryptoparser.tls.ldap:LDAPExtendedRequestStartTLS', 'trailing',
          lambda n: bytes.fromhex('301d02010177188016312e332e362e312e342e312e313436362e3230303337') + bytes(n), None),
+        ('cryptoparser.tls.ldap:LDAPExtendedResponseStartTLS', 'many-controls',
+         lambda n: ldap_response(controls=der(0x30, der(0x04, b'1.2.3')) * n), None),
+        ('cryptoparser.tls.ldap:LDAPExtendedResponseStartTLS', 'many-referrals',
+         lambda n: ldap_response(referrals=der(0x04, b'ldap://a.example') * n), None),
+        ('cryptoparser.tls.ldap:LDAPExtendedResponseStartTLS', 'huge-diagnostic',
+         lambda n: der(0x30, der(0x02, b'\x01') + der(0x78, der(0x0a, b'\x00') + der(0x04, b'') + der(0x04, b'a' * n))), None),
         ('cryptoparser.tls.postgresql:SslRequest', 'trailing', lambda n: u(8, 4) + u(80877103, 4) + bytes(n), None),
         ('cryptoparser.tls.postgresql:Sync', 'trailing', lambda n: b'S' + u(4, 4) + bytes(n), None),
         ('cryptoparser.common.x509:SignedCertificateTimestampList', 'many-scts',
@@ -779,14 +811,17 @@ DECLARED_SMALL = 100     # the twin of every maximal declaration: a value just b
 # series: calibration, measurement, verdict
 # ------------------------------------------------------------------------------------------------
 
-def _calibrate(cls, build, cap):
+SCALE = [1]                 # 4 in the thorough tier
+
+
+def _calibrate(cls, build, cap, scale=1):
     """Smallest unit count s such that the 8s run has about EV_TARGET events and the s run has at least MIN_BYTES."""
-    probe = 16 if cap is None or cap >= 128 else max(1, cap // 8)
+    probe = 2 if cap is None or cap >= 16 else 1
     e1 = measure(cls, build(probe))[0]
-    e2 = measure(cls, build(2 * probe))[0]
-    per_unit = max(1.0, float(e2 - e1) / probe)
-    s = int(EV_TARGET / per_unit / 8)
-    s = max(s, 4)
+    e2 = measure(cls, build(3 * probe))[0]
+    per_unit = max(1.0, float(e2 - e1) / (2 * probe))
+    s = int(EV_TARGET * SCALE[0] * scale / per_unit / 8)
+    s = max(s, 2)
     if cap is not None and 8 * s > cap:
         s = max(1, cap // 8)
     while len(build(s)) < MIN_BYTES and (cap is None or 16 * s <= cap):
@@ -794,8 +829,8 @@ def _calibrate(cls, build, cap):
     return s
 
 
-def series(cls, build, cap, factor=(1, 2, 4, 8)):
-    s = _calibrate(cls, build, cap)
+def series(cls, build, cap, factor=(1, 2, 4, 8), scale=1):
+    s = _calibrate(cls, build, cap, scale)
     rows = []
     for f in factor:
         data = build(f * s)
@@ -816,15 +851,19 @@ def slopes(rows, key='events'):
     return out
 
 
-def verdict(name, shape, rows):
-    """[(finding key, message)] for one series."""
+def verdict(name, shape, rows, blame=None):
+    """[(finding key, message)] for one series; `blame` names the class a depth finding is filed under (the class
+    whose parser recurses, when it is reached through an enclosing class)."""
     out = []
+    blame = blame or name
     if any(r['outcome'] == 'HANG' for r in rows):
         out.append(('hang:' + name, '{} [{}]: a parse exceeded {} s at {} bytes'.format(
             name, shape, TIME_LIMIT, [r['bytes'] for r in rows if r['outcome'] == 'HANG'][0])))
         return out
     if any(r['outcome'] == 'RecursionError' for r in rows):
-        out.append(('depth:' + name, '{} [{}]: RecursionError'.format(name, shape)))
+        first = [r['bytes'] for r in rows if r['outcome'] == 'RecursionError'][0]
+        out.append(('depth:' + blame, '{} [{}]: the nesting of the input drives the recursion depth: RecursionError escapes '
+                    'the parse of {} bytes (outcomes {})'.format(name, shape, first, [r['outcome'] for r in rows])))
     sl = slopes(rows)
     if len(sl) >= 2 and rows[0]['bytes'] >= 16:
         first, last = sl[0], sl[-1]
@@ -835,7 +874,7 @@ def verdict(name, shape, rows):
                             ['%.1f' % x for x in sl])))
     d = [r['depth'] for r in rows]
     if len(d) >= 4 and d[3] > d[2] > d[0]:
-        out.append(('depth:' + name, '{} [{}]: nesting of cryptoparser frames grows with the input: {} at {} bytes'.format(
+        out.append(('depth:' + blame, '{} [{}]: nesting of cryptoparser frames grows with the input: {} at {} bytes'.format(
             name, shape, d, [r['bytes'] for r in rows])))
     return out
 
@@ -846,12 +885,15 @@ def time_growth(rows):
     return b['secs'] / max(a['secs'], 1e-6), float(b['bytes']) / max(1, a['bytes'])
 
 
-def time_rows(cls, build, cap, rows, upto=2):
-    """untraced wall times continued beyond 8s (16s, 32s, ...) while the cap and the time budget allow"""
+def time_rows(cls, build, cap, rows, upto, until):
+    """untraced wall times continued beyond the last row by doubling, at most `upto` times, while a single parse is
+    faster than `until` seconds and the cap allows"""
     out = [dict(r) for r in rows]
     units = rows[-1]['units']
-    while len(out) < len(rows) + upto and out[-1]['secs'] < TIME_STOP:
+    n = 0
+    while n < upto and out[-1]['secs'] < until:
         units *= 2
+        n += 1
         if cap is not None and units > cap:
             break
         data = build(units)
@@ -865,14 +907,13 @@ def time_rows(cls, build, cap, rows, upto=2):
 
 def time_note(name, shape, cls, build, cap, rows):
     """Wall time clearly superlinear while events are linear -> (note or None, worse than quadratic).
-    The untraced timing is continued to 16s and 32s for every series that is cheap, and further for a suspect one."""
-    if rows[-1]['secs'] > TIME_CHEAP and time_growth(rows)[0] < TIME_SUSPECT * time_growth(rows)[1]:
-        return None, False
-    ext_rows = time_rows(cls, build, cap, rows, upto=2)
+    The untraced timing is continued by doubling until a parse takes TIME_CHEAP seconds (at most 5 doublings); a
+    series whose last doubling is suspect gets one more."""
+    ext_rows = time_rows(cls, build, cap, rows, upto=5, until=TIME_CHEAP)
     rt, rb = time_growth(ext_rows)
     if ext_rows[-1]['secs'] < TIME_FLOOR or rt < TIME_SUSPECT * rb:
         return None, False
-    ext_rows = time_rows(cls, build, cap, ext_rows, upto=1)
+    ext_rows = time_rows(cls, build, cap, ext_rows, upto=1, until=TIME_STOP)
     rt, rb = time_growth(ext_rows)
     if rt < TIME_SUPER * rb:
         return None, False
@@ -886,13 +927,85 @@ def short_name(path):
 
 
 # ------------------------------------------------------------------------------------------------
+# self-test of the detector: synthetic parsers whose code objects carry a file name under cryptoparser/
+# ------------------------------------------------------------------------------------------------
+
+_SELFTEST_SRC = """
+class Quadratic(object):
+    @classmethod
+    def parse_immutable(cls, data):
+        total = 0
+        for i in range(len(data)):
+            for j in range(0, i, 16):
+                total += 1
+        return total, len(data)
+
+
+class Linear(object):
+    @classmethod
+    def parse_immutable(cls, data):
+        total = 0
+        for i in range(len(data)):
+            total += 1
+        return total, len(data)
+
+
+class Recursive(object):
+    @classmethod
+    def parse_immutable(cls, data):
+        if len(data) < 8:
+            return 0, len(data)
+        return cls.parse_immutable(data[8:])
+
+
+class Declared(object):
+    @classmethod
+    def parse_immutable(cls, data):
+        total = 0
+        for i in range(int.from_bytes(data[:2], 'big')):
+            total += 1
+        return total, 2
+"""
+
+
+def self_test():
+    """The verdict functions flag what they must and nothing else; raises RuntimeError otherwise (an infrastructure
+    failure, never a verdict)."""
+    ns = {}
+    exec(compile(_SELFTEST_SRC, _root() + '_c19_selftest.py', 'exec'), ns)   # pylint: disable=exec-used
+    saved = SCALE[0]
+    SCALE[0] = 1
+    try:
+        quad = verdict('Quadratic', 'selftest', series(ns['Quadratic'], bytes, None))
+        lin = verdict('Linear', 'selftest', series(ns['Linear'], bytes, None))
+        rec = verdict('Recursive', 'selftest', series(ns['Recursive'], bytes, 400 * 8))
+        dec = declared_verdict(ns['Declared'], 'Declared', 'count', 0xffff, lambda v: u(v, 2) + b'ab')[0]
+    finally:
+        SCALE[0] = saved
+    problems = []
+    if not any(k.startswith('superlinear:') for k, _ in quad):
+        problems.append('a quadratic parser is not flagged: {}'.format(quad))
+    if lin:
+        problems.append('a linear parser is flagged: {}'.format(lin))
+    if not any(k.startswith('depth:') for k, _ in rec):
+        problems.append('a recursive parser is not flagged: {}'.format(rec))
+    if not any(k.startswith('declared-count-work:') for k, _ in dec):
+        problems.append('a loop driven by a declared count is not flagged: {}'.format(dec))
+    if problems:
+        raise RuntimeError('C19 detector self-test failed: ' + '; '.join(problems))
+
+
+# ------------------------------------------------------------------------------------------------
 # the parts of a run
 # ------------------------------------------------------------------------------------------------
 
 def run_shapes(run, only=None):
     table = {}
-    for path, shape, build, cap in shapes():
+    for entry in shapes():
+        path, shape, build, cap = entry[:4]
         name = short_name(path)
+        opts = entry[4] if len(entry) > 4 else {}
+        blame = opts.get('blame', name)
         if only and only not in (name, shape, name + ':' + shape):
             continue
         try:
@@ -900,7 +1013,7 @@ def run_shapes(run, only=None):
         except Exception as exc:  # pylint: disable=broad-except
             run.count('shape_errors', '{}:{}'.format(name, type(exc).__name__))
             continue
-        rows = series(cls, build, cap)
+        rows = series(cls, build, cap, scale=opts.get('scale', 1))
         table[(name, shape)] = rows
         run.evaluations += len(rows)
         run.count('shape_classes', name, len(rows))
@@ -908,7 +1021,7 @@ def run_shapes(run, only=None):
         for r in rows:
             run.note_nontrivial((name, shape, r['bytes']))
         case = {'kind': 'shape', 'cls': path, 'shape': shape}
-        for key, msg in verdict(name, shape, rows):
+        for key, msg in verdict(name, shape, rows, blame=blame):
             run.finding(key, msg, case)
         note, bad = time_note(name, shape, cls, build, cap, rows)
         if note:
@@ -1033,8 +1146,9 @@ def tick_cases(run, deep):
     """(model class, bytes): the scalable shapes of the modelled classes at several sizes, generated objects, mutations"""
     from harness import clsrun, gen_tls
     cases = []
-    sizes = (1, 2, 3, 8, 32, 128, 512) if not deep else (1, 2, 3, 8, 32, 128, 512, 2048, 8192)
-    for path, shape, build, cap in shapes():
+    sizes = (1, 2, 3, 8, 32, 96) if not deep else (1, 2, 3, 8, 32, 128, 512, 2048)
+    for entry in shapes():
+        path, shape, build, cap = entry[:4]
         name = short_name(path)
         if name not in MODEL_CLASSES:
             continue
@@ -1104,8 +1218,12 @@ def run_ticks(run, driver_ok, deep):
 
 def run(run, driver_ok=True, deep=False):  # pylint: disable=redefined-outer-name
     deep = deep or run.tier == 'thorough'
+    SCALE[0] = 4 if deep else 1
     run.time_notes = []
     phases = []
+    self_test()
+    run.notes.append('detector self-test passed: synthetic quadratic / recursive / count-driven parsers compiled under a '
+                     'cryptoparser/ file name are flagged, a linear one is not')
     t0 = time.time()
     table = run_shapes(run)
     phases.append(('shapes', time.time() - t0))
@@ -1140,6 +1258,7 @@ def search(run, proof):  # pylint: disable=redefined-outer-name,unused-argument
         sub = core.Run(run.prop, 'thorough', run.seed + 1)
         sub.kf = run.kf
         sub.time_notes = []
+        SCALE[0] = 4
         run_shapes(sub)
         run_declared(sub)
         run_corpus(sub, n_mut=12)
@@ -1152,10 +1271,12 @@ def search(run, proof):  # pylint: disable=redefined-outer-name,unused-argument
 def replay(case):
     kind = case.get('kind')
     if kind == 'shape':
-        for path, shape, build, cap in shapes():
+        for entry in shapes():
+            path, shape, build, cap = entry[:4]
             if path == case['cls'] and shape == case['shape']:
-                rows = series(cls_of(path), build, cap)
-                out = verdict(short_name(path), shape, rows)
+                opts = entry[4] if len(entry) > 4 else {}
+                rows = series(cls_of(path), build, cap, scale=opts.get('scale', 1))
+                out = verdict(short_name(path), shape, rows, blame=opts.get('blame'))
                 note, bad = time_note(short_name(path), shape, cls_of(path), build, cap, rows)
                 if bad:
                     out.append(('time-worse-than-quadratic:{}:{}'.format(short_name(path), shape), note))
